@@ -150,3 +150,5 @@ def run_all(ctx):
         ops_nf.case_from_flat(ctx)
         if i % 2 == 0:
             ops_nf.case_add_nested(ctx)
+        else:
+            ops_nf.case_add_nested_on(ctx)      # packed by the values of a column: nothing lost either
